@@ -277,7 +277,9 @@ def large_shard(desc):
                 f.case = popcheck.payload(big, date, perm=perm, label="strings", lab_seed=1)
         return fails
 
-    core.explore(popgen.populations(date, mode="branch", max_households=3), oracle, n=desc["n"],
+    # households with children / partners / own-needs children: the interesting pointers and units
+    archs = ["couple_kids", "single_parent", "patchwork", "adult_child", "three_gen", "teen_parent", "child_with_partner"]
+    core.explore(popgen.populations(date, mode="branch", max_households=3, archetypes=archs), oracle, n=desc["n"],
                  seed=D.sub_seed(desc["seed"], PROP, "large", desc["date"]), shard=sh, known=known, shrink=False)
     return sh
 
@@ -300,7 +302,7 @@ def run(tier, seed, t0):
         descs = [{"date": days[0], "shapes": [i], "variant": seed % 5} for i in range(len(SHAPES))]
         extra = [("vf.checks.c01", "exhaustive_shard", descs)]
         big_days = [s[0].isoformat() for s in D.pick(D.strata(), 4, seed, PROP, "large")]
-        extra.append(("vf.checks.c01", "large_shard", [{"date": d, "rows": 1100, "n": 1, "seed": D.sub_seed(seed, "large", d)} for d in big_days]))
+        extra.append(("vf.checks.c01", "large_shard", [{"date": d, "rows": 1100, "n": 2, "seed": D.sub_seed(seed, "large", d)} for d in big_days]))
     return popcheck.run(__name__, tier, seed, t0, extra_descs=extra)
 
 
